@@ -85,6 +85,8 @@ pub fn view(e: &VfsEntry) -> EntryView {
 thread_local! {
     /// set when the accessors of a VfsEntry disagree with those of the value it wraps (C13)
     pub static ENTRY_MISMATCH: std::cell::RefCell<Option<String>> = const { std::cell::RefCell::new(None) };
+    /// set when follow(true) on a copy of a followed entry swaps path and alt a second time (C10)
+    pub static FOLLOW_TWICE: std::cell::RefCell<Option<String>> = const { std::cell::RefCell::new(None) };
 }
 
 /// The same accessor set read from the wrapped backend value instead of through the enum
@@ -215,7 +217,19 @@ fn run_entries<V: VirtualFileSystem>(v: &V, p: &str, o: &EntOpts) -> Outcome {
                 ended = true;
                 break;
             },
-            Some(Ok(x)) => out.push(Ok(view(&x))),
+            Some(Ok(x)) => {
+                let (vw, vi) = (view(&x), view_inner(&x));
+                if vw != vi {
+                    ENTRY_MISMATCH.with(|m| *m.borrow_mut() = Some(format!("traversal item: enum {:?} vs wrapped value {:?}", vw, vi)));
+                }
+                if o.follow {
+                    let again = view(&x.clone().follow(true));
+                    if again != vw {
+                        FOLLOW_TWICE.with(|m| *m.borrow_mut() = Some(format!("yielded {:?} but follow(true) on its clone gives {:?}", vw, again)));
+                    }
+                }
+                out.push(Ok(vw))
+            },
             Some(Err(e)) => {
                 out.push(Err(err_kind(&e)));
                 // an iterator that reported an error is not required to continue
@@ -425,6 +439,11 @@ fn exec_inner<V: VirtualFileSystem>(v: &V, hs: &mut Handles, op: &Op) -> Outcome
                 let v0 = view(&e);
                 let e1 = e.follow(true);
                 let v1 = view(&e1);
+                // "swaps path and alt exactly once": also for a copy of the followed entry
+                let again = view(&e1.clone().follow(true));
+                if again != v1 {
+                    FOLLOW_TWICE.with(|m| *m.borrow_mut() = Some(format!("followed {:?} but follow(true) on its clone gives {:?}", v1, again)));
+                }
                 let e2 = e1.follow(false);
                 let v2 = view(&e2);
                 let e3 = e2.follow(true);
